@@ -745,6 +745,45 @@ def shrink(exe, seq_lines, fail_idx):
     return [head] + cur + ["E"], (mm[0] if mm else None)
 
 
+M64 = (1 << 64) - 1
+
+
+def bitmanip_sweep(exe):
+    """run harness/C18_bitmanip (real header) and compare every line with independent definitions"""
+    rc, out = V.run([str(exe)], timeout=300)
+    bad, n = [], 0
+    if rc != 0:
+        return [dict(call="harness", got="exit %d" % rc, want="exit 0")], 0
+    def mask(start, count):
+        return ((M64 if count >= 64 else (1 << count) - 1) << start) & M64
+    for line in out.splitlines():
+        p = line.split()
+        if not p: continue
+        k, a = p[0], [int(x) for x in p[1:]]
+        n += 1
+        if k == "BMI":
+            want = [0]; got = a
+        elif k == "mask":
+            want, got = [mask(a[0], a[1])], a[2:]
+        elif k == "isset":
+            m = mask(a[1], a[2]); want, got = [int(a[0] & m == m)], a[3:]
+        elif k == "ext":
+            want, got = [(a[0] >> a[1]) & mask(0, a[2])], a[3:]
+        elif k == "ins":
+            m = mask(a[1], a[2]); want, got = [(a[0] & ~m & M64) | (m & (a[3] << a[1]) & M64)], a[4:]
+        elif k == "lowest":
+            want, got = [a[0] & (-a[0] & M64)], a[1:]
+        elif k == "andnot":
+            want, got = [~a[0] & a[1] & M64], a[2:]
+        elif k == "bit":
+            b = 1 << a[1]; want, got = [int(bool(a[0] & b)), a[0] | b, a[0] & ~b & M64, a[0] ^ b], a[2:]
+        else:
+            continue
+        if want != got and len(bad) < 50:
+            bad.append(dict(call=line, got=got, want=want))
+    return bad, n
+
+
 def main():
     t0 = time.time()
     tier = V.tier()
@@ -752,12 +791,25 @@ def main():
     V.build_gatery()
     exe = V.build_harness("C18_bvs")
     res = V.check_properties(CID)
+    # S3: regenerate the word helpers of utils/BitManipulation.h from the current source (fail closed)
+    gen = V.COQ / "Gatery" / "gen" / "BitManipSrc.v"
+    with V.Lock("coq_C18_gen"):
+        trc, tout = V.run([sys.executable, str(V.VERIF / "translate" / "C18_bitmanip.py"), str(V.REPO), str(gen)], timeout=120)
+        if trc != 0:
+            for f in (V.COQ / "Gatery" / "gen").glob("BitManipSrc.*"):
+                try: f.unlink()
+                except OSError: pass
+        res_src = V.check_properties(CID + "src")
+    sweep_exe = V.build_harness("C18_bitmanip")
     model = V.build_model(CID)
     if "--build-only" in sys.argv:
         sys.exit(0 if model else 2)
     rep = V.Report(CID)
     rep.t0 = t0
     rep.add_proof(res)
+    rep.add_proof(res_src, checker_cmd="translate/C18_bitmanip.py /repo coq/Gatery/gen/BitManipSrc.v && make -C coq -k Gatery/Properties_C18.vo Gatery/Properties_C18src.vo  (coqc 8.16.1, full .vo build, Print Assumptions per theorem)")
+    rep.cov["source_regenerated"] = dict(translator="translate/C18_bitmanip.py", output="coq/Gatery/gen/BitManipSrc.v", status=tout.strip()[:300],
+                                         theorems=res_src["obligations"], discharged=res_src["discharged"])
     known, fixed = V.known_findings(CID)
     for fid, fd in FINDINGS.items():
         if any(fd["key"] in k for k in known):
@@ -971,6 +1023,18 @@ def main():
         else:
             rep.violation(dict(property=CID, what_broke=what, ops=[],
                                note="no concrete failing input found by the bit-array oracle within the budget"), nofail=True)
+    # ---- word helpers: sweep of the REAL header against independent python definitions (always run: ~0.1 s);
+    #      when the source-regenerated theorems broke this is the search for the failing input
+    sweep_bad, sweep_n = bitmanip_sweep(sweep_exe)
+    rep.cov["bitmanip_sweep_calls"] = sweep_n
+    if sweep_bad:
+        rep.violation(dict(property=CID, kind="word helper of utils/BitManipulation.h disagrees with its definition on the real header",
+                           failing_calls=sweep_bad[:8], n=len(sweep_bad), theorems_failed=res_src["failed"], translator=tout.strip()[:300],
+                           replay="build/harness/C18_bitmanip | grep '^<first three fields>'"), tag="bitmanip")
+    elif trc != 0 or not res_src["ok"]:
+        rep.violation(dict(property=CID, kind="source-regenerated theorems no longer check", translator=tout.strip()[:500],
+                           theorems_failed=res_src["failed"], log=res_src["log"][-1500:],
+                           note="the sweep of the real header (all start/count pairs, 8 words) found no wrong result"), nofail=True, tag="bitmanip")
     rep.cov["wall_total_s"] = round(time.time() - t0, 1)
     rep.finish()
 
